@@ -318,6 +318,19 @@ def run(ctx):
         for mu in mutants(sigh, rng, 6, 8, 0) + [sigh * 50, b'a;' * 2000, b'"' * 3000, b'*' * 4000, b'a;b=' + b'9' * 3000]:
             ops.append(f'c10.verify {" ".join(e[:6] + [hexs(mu)] + e[7:])} {hexs(chain)} {date + 5}')
 
+    # certificates on curves the library does not sign with (P-521), with a well-formed DER Ecdsa-Sig-Value in the signature field: the
+    # verifiers must answer "invalid", for signed exchanges and for bundle signatures
+    import hashlib as _hl, base64 as _b64, re as _re
+    k521 = [k for k in w.keys if k['curve'] == 'p521']
+    DER = [bytes.fromhex('3006020101020101'), bytes.fromhex('30080202008002020080'), bytes.fromhex('3000'), bytes.fromhex('300602010002010' + '0')]
+    for kk in k521:
+        csha = _b64.b64encode(_hl.sha256(unhex(kk['cert'])).digest())
+        for e in signed[:3]:
+            hdr = unhex(e[6])
+            for der in DER + [None]:
+                h2 = _re.sub(rb'cert-sha256=\*[^*]*\*', b'cert-sha256=*' + csha + b'*', hdr)
+                if der is not None: h2 = _re.sub(rb'sig=\*[^*]*\*', b'sig=*' + _b64.b64encode(der) + b'*', h2)
+                ops.append(f'c10.verify {" ".join(e[:6] + [hexs(h2)] + e[7:])} {kk["chain"]} {date + 5}')
     # every status code net/http knows, honestly signed, with and without freshness information (table lookups keyed by the status)
     STATUSES = [100, 101, 102, 103, 200, 201, 202, 203, 204, 205, 206, 207, 208, 226, 300, 301, 302, 303, 304, 305, 307, 308, 400, 401, 402, 403, 404, 405, 406, 407, 408, 409, 410, 411, 412, 413, 414,
                 415, 416, 417, 418, 421, 422, 423, 424, 425, 426, 428, 429, 431, 451, 500, 501, 502, 503, 504, 505, 506, 507, 508, 510, 511, 599, 600, 999, 0]
@@ -326,6 +339,17 @@ def run(ctx):
         for v in (('b3',) if st not in (200, 503, 511) else ('b1', 'b2', 'b3')):
             e = ex(v, b'https://example.com/', b'GET', [], st, [(b'Content-Type', [b'text/html'])] + ([(b'Cache-Control', [b'max-age=60'])] if st % 7 == 0 else []), b'', b'status sweep')
             swe.append(e)
+    # Cache-Control / Expires / Content-Type values at the edges of their little grammars (lone and unbalanced quotes, empty arguments,
+    # bare separators, very long runs), honestly signed, through the verifier
+    CC = [b'max-age="', b'public, ext=","', b'"', b'=', b'=""', b'a="', b'"="', b',', b' , ', b'max-age=""', b'max-age="60', b'ext="\\"', b'"' * 300, b'a=b=c', b'max-age=', b'=60', b'max-age =60',
+          b'no-store="', b'private=",public', b',,,', b'x' * 5000, b'a=' + b'"' * 3, b'\t', b'max-age=\x00', b'\xff\xfe', b'max-age=99999999999999999999', b'max-age=-1', b's-maxage="']
+    for st in (200, 201):
+        for cc in CC:
+            swe.append(ex('b3', b'https://example.com/', b'GET', [], st, [(b'Content-Type', [b'text/html']), (b'Cache-Control', [cc])], b'', b'cc sweep'))
+            swe.append(ex('b3', b'https://example.com/', b'GET', [], st, [(b'Content-Type', [b'text/html']), (b'Cache-Control', [b'public', cc])], b'', b'cc sweep'))
+    for hv in (b'"', b'', b'0', b'x' * 3000):
+        swe.append(ex('b3', b'https://example.com/', b'GET', [], 201, [(b'Content-Type', [b'text/html']), (b'Expires', [hv])], b'', b'exp sweep'))
+        swe.append(ex('b3', b'https://example.com/', b'GET', [], 200, [(b'Content-Type', [hv])], b'', b'ct sweep'))
     res = ctx.go([f'sxg.sign {exs(e)} 16 {k0["cert"]} {k0["key"]} {hexs(b"https://example.com/cert.cbor")} {hexs(b"https://example.com/validity")} {date} {date + 3600}' for e in swe])
     for r in res:
         if r and r.startswith('ok '):
@@ -351,6 +375,10 @@ def run(ctx):
             auth = f'{k0["cert"]}:{hexs(b"ocsp")}:{hexs(b"sct")}'
             subs = '+'.join(f'0:{hexs(rbytes(rng, 70))}:{hexs(rbytes(rng, 40))}' for _ in range(nsub))
             sb.append(bundle(v, b'https://example.com/', None, f'{auth}/{subs}', [exch(b'https://example.com/', 200, [(b'Content-Type', [b'text/plain'])], b'body')] if nsub == 1 else []))
+    for kk in k521:
+        for v in ('b1', 'b2'):
+            for der in DER:
+                sb.append(bundle(v, b'https://example.com/', None, f'{kk["cert"]}:{hexs(b"ocsp")}:nil/0:{hexs(der)}:{hexs(rbytes(rng, 60))}', [exch(b'https://example.com/', 200, [], b'body')]))
     res = ctx.go([f'bundle.write {b}' for b in sb])
     for r in res:
         if not (r and r.startswith('ok ')): continue
